@@ -223,9 +223,8 @@ func ifaceHasMethod(t types.Type, m *types.Func) bool {
 		return false
 	}
 	// t must provide every method of the interface m belongs to (t is that interface or a superset)
-	return types.Implements(t, want)
 	_ = it
-	return false
+	return types.Implements(t, want)
 }
 
 // isPkgFunc: cc statically calls package-level function pkg.name (or method recvType.name when name has a dot).
